@@ -1,1 +1,136 @@
-(* Model/ParDot.v -- stub, to be filled in *)
+(* Model/ParDot.v -- Vector<f64>::dot_f64 (src/vector/vec_f64.rs:73-109), the threaded dot product,
+   over any Arith (the code is f64-only; the model is generic so that the same definition is run
+   at AF bit-exactly and proved over an abstract ring).  Definitions only.
+
+     num_threads = num_cpus::get()                       -- the parameter [t] (observed by the executor)
+     chunk_size  = self.size() / num_threads             -- usize division: panics when t = 0
+     for i in 0..num_threads                             -- spawn order
+        start = i*chunk_size ; end = if i == num_threads-1 { size } else { (i+1)*chunk_size }
+        self_slice = &self.vec[start..end] ; w_slice = &w.vec[start..end]   -- checked range slicing (main thread)
+        spawn { result = 0.0 ; for k in 0..self_slice.len() { result += self_slice[k]*w_slice[k] } ; result }
+     result = 0.0 ; for thread in threads { result += thread.join().unwrap() }   -- joined in spawn order
+
+   What the value model cannot exhibit -- a data race, a torn read -- is excluded by the borrowing rules
+   of std::thread::scope (trusted, DESIGN section 6).  What it does exhibit: the partition, the
+   per-worker sum from 0, an arbitrary completion order [sigma] of the workers, each storing its result in
+   the slot of its spawn index, and the main thread folding the slots in spawn order from 0. *)
+From Coq Require Import List Arith Lia ZArith.
+From OV Require Import Base.Panic Base.Arith Base.Flat Model.Vector.
+Import ListNotations.
+
+(* (start, end) of worker i of t over a vector of length len *)
+Definition chunk_bounds (len t i : nat) : nat * nat :=
+  let c := len / t in
+  (i * c, if i =? t - 1 then len else (i + 1) * c).
+
+(* &v[s..e] : panics unless s <= e <= len *)
+Definition subslice {X} (v : list X) (s e : nat) : res (list X) :=
+  if s <=? e then
+    if e <=? length v then Ok (firstn (e - s) (skipn s v)) else Panic Index
+  else Panic Index.
+
+(* the slices of the partition, in spawn order (pure list version used by chunks_cover) *)
+Definition slices {X} (v : list X) (t : nat) : list (list X) :=
+  map (fun i => let '(s, e) := chunk_bounds (length v) t i in firstn (e - s) (skipn s v)) (seq 0 t).
+
+Local Open Scope arith_scope.
+
+Section ParDot.
+Context {A : Arith}.
+Notation T := (T A).
+
+(* what the main thread hands to worker i: the two slices *)
+Definition job (v w : list T) (t i : nat) : res (list T * list T) :=
+  let '(s, e) := chunk_bounds (length v) t i in
+  let* a := subslice v s e in
+  let* b := subslice w s e in
+  Ok (a, b).
+
+(* the worker: result = 0; for k in 0..len: result += a[k]*b[k]   (both slices have the same length) *)
+Definition work (j : list T * list T) : T := dot_raw (fst j) (snd j).
+
+Definition jobs (v w : list T) (t : nat) : res (list (list T * list T)) :=
+  mapM (job v w t) (seq 0 t).
+
+(* the result as a function of the worker count: the partial sums added in spawn order, from 0 *)
+Definition pardot (t : nat) (v w : list T) : res T :=
+  if length v =? length w then
+    if t =? 0 then Panic DivZero else
+    let* js := jobs v w t in
+    Ok (fold_left (fun acc j => acc + work j) js zero)
+  else Panic Guard.
+
+(* ---- the scheduler: workers complete in the order sigma; worker k writes slot k ---- *)
+Fixpoint complete (js : list (list T * list T)) (sigma : list nat) (slots : list (option T))
+  : res (list (option T)) :=
+  match sigma with
+  | [] => Ok slots
+  | k :: rest =>
+      let* j := rd js k in
+      let* slots' := upd slots k (Some (work j)) in
+      complete js rest slots'
+  end.
+
+(* for thread in threads { result += thread.join().unwrap() }: a slot never filled is a worker that
+   never finished; the model reports it as Panic Unwrap (the real join would block for ever) *)
+Fixpoint join_all (slots : list (option T)) (acc : T) : res T :=
+  match slots with
+  | [] => Ok acc
+  | Some x :: rest => join_all rest (acc + x)
+  | None :: _ => Panic Unwrap
+  end.
+
+Definition run_sched (sigma : list nat) (t : nat) (v w : list T) : res T :=
+  if length v =? length w then
+    if t =? 0 then Panic DivZero else
+    let* js := jobs v w t in
+    let* slots := complete js sigma (repeat None t) in
+    join_all slots zero
+  else Panic Guard.
+
+(* the answer of the executor kind vec.pardot: the observed worker count, the threaded product repeated
+   [reps] times, then the sequential product (a panic of dot_f64 ends the answer) *)
+Variable flat : T -> list Z.
+Definition pardot_out (t reps : nat) (v w : list T) : list Z :=
+  match pardot t v w with
+  | Panic k => fl_nat t ++ fl_panic k
+  | Ok x => fl_nat t ++ concat (repeat (flat x) reps) ++ fl_res flat (dot v w)
+  end.
+
+End ParDot.
+
+(* ---- test data for the correspondence check, generated INSIDE Coq ----
+   Parsing a few hundred float literals per case costs coqc far more than running the model, so for the sweep
+   over (length, worker count) the two data vectors are produced by a small linear congruential generator on
+   Uint63 that driver/c16.py mirrors step by step (gen_data): the executor receives the same values as explicit
+   bit patterns.  If the two generators ever disagreed the tie would fail on every case -- it cannot hide anything.
+   mode 0: "arbitrary" f64 values  +-m * 2^e, m < 2^33, e in [-40, 23]  (products and sums round);
+   mode 1: integers in [-1000, 1000] (every partial sum is exact). *)
+From Coq Require Import Floats Uint63.
+From OV Require Import Inst.FloatInst.
+
+Definition lcg (s : int) : int := (s * 6364136223846793005 + 1442695040888963407)%uint63.
+
+Definition gen_val (mode : nat) (s : int) : float :=
+  match mode with
+  | O =>
+      let m := (s >> 30)%uint63 in                                   (* 33 bits *)
+      let e := (Uint63.to_Z ((s >> 24) land 63)%uint63 - 40)%Z in
+      let x := Z.ldexp (PrimFloat.of_uint63 m) e in
+      if (Uint63.eqb ((s >> 23) land 1) 1)%uint63 then PrimFloat.opp x else x
+  | _ =>
+      let m := ((s >> 30) mod 2001)%uint63 in                        (* 0..2000 *)
+      PrimFloat.sub (PrimFloat.of_uint63 m) 1000%float
+  end.
+
+Fixpoint gen_vec (mode n : nat) (s : int) : list float * int :=
+  match n with
+  | O => ([], s)
+  | S n' => let s1 := lcg s in
+            let '(t, s2) := gen_vec mode n' s1 in (gen_val mode s1 :: t, s2)
+  end.
+
+Definition pardot_gen_out (t reps len mode : nat) (seed : int) : list Z :=
+  let '(v, s1) := gen_vec mode len seed in
+  let '(w, _) := gen_vec mode len s1 in
+  pardot_out (A := AF) flat_f t reps v w.
